@@ -244,6 +244,37 @@ func checkC16(r *mc.Report, thorough bool) {
 	})
 	p.Done()
 
+	// ---- part 1b: the same sequences with TIGHT buffers: the caller's buffer (= the configured maximum) is just large
+	// enough for the longest encoded frame of the sequence, or exactly as long as the whole stream, so that device
+	// reads fill it to the last byte and a delimiter lands on its last position
+	p = r.Part("undamaged-tight-buffers", fmt.Sprintf("all sequences of 1..%d frames over %d payloads with the buffer length (= maximum message length) set to the longest encoded frame of the sequence +0..+3 bytes and to the length of the whole stream +0 / +1; the device hands out as much as fits (no cut) or is cut at one position", maxSeq, len(small)))
+	mc.ParallelFor(len(seqs), func(i int) {
+		frames := seqs[i]
+		stream, ranges := c16Encode(frames, smallBuf)
+		longest := 0
+		for _, rg := range ranges {
+			if rg[1]-rg[0] > longest {
+				longest = rg[1] - rg[0]
+			}
+		}
+		lens := map[int]bool{}
+		for d := 0; d <= 3; d++ {
+			lens[longest+d] = true
+		}
+		lens[len(stream)] = true
+		lens[len(stream)+1] = true
+		for bl := range lens {
+			cutSets(len(stream), 1, func(cuts []int) {
+				p.Case(true)
+				p.Step(1)
+				if key, msg := c16Check(frames, stream, cuts, bl, len(frames), 0, false); key != "" {
+					p.Violation(key+"/tight-buffer", fmt.Sprintf("buffer length %d: %s", bl, msg), c16Case{Frames: hexFull(frames), Stream: hex.EncodeToString(stream), Cuts: append([]int{}, cuts...), BufLen: bl, Pre: len(frames)})
+				}
+			})
+		}
+	})
+	p.Done()
+
 	// ---- part 2: undamaged, long frames around the 0xff block boundary and the buffer limit
 	const bigBuf = 600
 	var long [][]byte
